@@ -6,7 +6,7 @@ compared member-wise after normalising uuids and dates; to_file must create the 
 query variants must agree with one another and with CLI -m / -e.
 """
 import os, re, io, zipfile, subprocess, tempfile, shutil
-from lib import core, gen, gendoc, drv as D, build
+from lib import core, gen, gendoc, drv as D, build, clibatch
 
 ID = 'C06'
 TEXT = ['html', 'latex', 'beamer', 'memoir', 'opml']
@@ -208,6 +208,11 @@ def work(job):
                 # metadata queries
                 if rng.random() < 0.5:
                     meta_agreement(r, s, rng, src, cli, tdir)
+                if rng.random() < 0.25:
+                    meta_after_convert(r, s, rng, src)
+                if i % 25 == 0:
+                    feats = set(f for f in ('footer', 'transclude', 'critic', 'title') if rng.random() < 0.5)
+                    clibatch.batch_vs_single(r, cli, rng, feats, [[], [], ['-a'], ['-r'], ['--nosmart'], ['-f'], ['-s'], ['-c'], ['--nolabels']])
                 r.distinct.add(core.h64(src, fmt, ext, lang))
                 r.sets['formats'].add(fname)
                 if i - lo < 1:
@@ -215,6 +220,56 @@ def work(job):
     finally:
         shutil.rmtree(tdir, ignore_errors=True)
     return r
+
+
+def meta_after_convert(r, s, rng, src):
+    """the engine variants of the metadata queries must answer the same on an engine that has already converted the document
+    (in any format) as the string variants do on the bare text"""
+    key = rng.choice([b'title', b'author', b'Title', b'nokey', b'css', b'date'])
+    ref = {}
+    for sub in (0, 1, 2):
+        rep = s.call('asan', 'META', 0, 0, 0, 0 | (sub << 4), [src, key, b''], crash_is_violation=False)
+        r.evaluations += 1
+        ref[sub] = rep.out if rep is not None and rep.status == 0 else None
+    hist = []
+
+    def eng(fmt, sub, args):
+        rq = D.req_to_json('asan', 'ENGINE', fmt, D.EXT_CLI, 0, 0 | (sub << 4), args)
+        hist.append(rq)
+        rep = s.call('asan', *D.req_from_json(rq), history=hist[:-1], crash_is_violation=False)
+        r.evaluations += 1
+        return rep
+    if eng(0, rng.randrange(2), [src]) is None:
+        return
+    alive = True
+    for _ in range(rng.randint(1, 2)):
+        if eng(rng.choice([0, 2, 5, 9]), rng.choice([2, 3]), [b'']) is None:
+            alive = False
+            break
+    if alive:
+        order = [(4, 0, [b'']), (5, 1, [b'']), (6, 2, [key])]
+        rng.shuffle(order)
+        for esub, sub, args in order:
+            rep = eng(0, esub, args)
+            if rep is None:
+                alive = False
+                break
+            got = rep.out if rep.status == 0 else None
+            exp = ref[sub]
+            if got is None or exp is None:
+                continue
+            if sub == 0:
+                got = got if got.startswith(b'1') else b'0'
+                exp = exp if exp.startswith(b'1') else b'0'
+            if sub == 2 and got == b'\x01NULL':
+                got = b''
+            r.stats['engine_metadata_queries_after_convert'] += 1
+            if got != exp and not (sub == 2 and exp == b'\x01NULL' and got == b''):
+                r.violate('meta-differs:engine-after-convert:%s' % ['has_metadata', 'metadata_keys', 'metavalue_for_key'][sub],
+                          'on an engine that already converted the document, mmd_engine_%s answers %s; the string variant on the same text answers %s' %
+                          (['has_metadata', 'metadata_keys', 'metavalue_for_key'][sub], core.show(got, 80), core.show(exp, 80)), dict(requests=list(hist)), core.show(src, 300))
+    if alive:
+        eng(0, 9, [b''])
 
 
 def describe_diff(a, b):
